@@ -493,8 +493,8 @@ def runner_main(jobfile, outfile):
     server, addr = None, None
     results = []
     try:
+        from pyworkers.remote_server import spawn_server
         if any(j['kind'] == 'remote' for j in jobs):
-            from pyworkers.remote_server import spawn_server
             server = spawn_server(('127.0.0.1', 0))
             if not server.is_alive():
                 raise MachineryError('cannot start a local remote server: %r' % (server.error,))
@@ -504,6 +504,20 @@ def runner_main(jobfile, outfile):
             # when the code under test hangs systematically, do not spend the whole budget waiting for it
             res = Replay(j, mods, addr, tmp).run(STEP_BOUND if hangs < 3 else 1.5)
             hangs = hangs + 1 if any(n.startswith('hang') for n in res['notes']) else 0
+            if server is not None and j['kind'] == 'remote' and (res['notes'] or not res['finished']):
+                # a replay that went wrong must not poison the following ones: they get a fresh server
+                alive = server.is_alive()
+                res['notes'].append('server alive afterwards: %s' % alive)
+                if hangs or not alive:
+                    try:
+                        spid = server.pid
+                        server.terminate(timeout=1, force=True)
+                        if _os_alive_pid(spid):
+                            os.kill(spid, signal.SIGKILL)
+                    except Exception:  # noqa
+                        pass
+                    server = spawn_server(('127.0.0.1', 0))
+                    addr = server.addr
             results.append(res)
             if len(results) % 8 == 0:
                 with open(outfile + '.part', 'w') as f:
@@ -794,6 +808,9 @@ def run(prop, tier, replay=None):
                 sel = rng.sample(paths, min(len(paths), 140 if quick else 1500))
             for h in sel:
                 add(kinds[0], h)
+    only = os.environ.get('VERIF_PAPI_KINDS')          # debugging aid: restrict the replays to some kinds
+    if only:
+        jobs = [j for j in jobs if j['kind'] in only.split(',')]
     nproc = 14
     tl = 70 if quick else 1500
     # slow kinds first in each chunk order: interleave so every runner gets a similar load
